@@ -1,7 +1,9 @@
 (* C08, capstone: the model's observation always satisfies the executable statement `spec_ok` that the
    correspondence harness applies to the implementation's observations (Corr/Run_C08.v). *)
 From Verif Require Import Base.Prelude Base.StrUtil Base.Index Model.MapSpec Model.MapSpecSpec Model.IndexOps
-  Corr.Run_C08 Proofs.StrFacts Proofs.IndexFacts Proofs.MapSpecFacts Proofs.MapSpecParse Proofs.MapSpecShape.
+  Model.MapSpecAxes Corr.Run_C08 Proofs.StrFacts Proofs.IndexFacts Proofs.MapSpecFacts Proofs.MapSpecParse
+  Proofs.MapSpecShape Proofs.MapSpecAxesFacts.
+From Verif Require Model.XrLabelSpec.
 
 (* ------------------------------------------------------------------ encode / decode of observations *)
 Lemma sx_eqb_refl : forall x, sx_eqb x x = true.
@@ -317,16 +319,65 @@ Proof.
     rewrite un_ok_ok, un_nats_sx, <- int_of_filter. apply nats_eqb_refl.
 Qed.
 
+(* ------------------------------------------------------------------ CAxes *)
+Lemma un_axes_dict_sx d : un_axes_dict (sx_axes_dict d) = Some d.
+Proof.
+  unfold un_axes_dict, sx_axes_dict. apply optM_map. intros [n ax]. cbn [fst snd].
+  now rewrite (optM_map _ _ _ un_axis_sx).
+Qed.
+
+Lemma un_dims_sx d : un_dims (sx_dims d) = Some d.
+Proof. unfold un_dims, sx_dims. apply optM_map. intros [n r]. cbn [fst snd]. now rewrite un_nat_SN. Qed.
+
+Lemma forallb2_nth {A B} (p : A -> B -> bool) : forall l1 l2,
+  length l1 = length l2 ->
+  (forall i x y, nth_error l1 i = Some x -> nth_error l2 i = Some y -> p x y = true) ->
+  forallb2 p l1 l2 = true.
+Proof.
+  induction l1 as [|x l1 IH]; intros [|y l2] Hl H; try discriminate; [reflexivity|]. cbn [forallb2].
+  rewrite (H 0 x y eq_refl eq_refl). cbn [andb]. apply IH; [now injection Hl|].
+  intros i x' y' Hx Hy. exact (H (S i) x' y' Hx Hy).
+Qed.
+
+Lemma case_axes specs : spec_ok (CAxes specs) (run (CAxes specs)) = true.
+Proof.
+  cbn [spec_ok run]. unfold axes_ok.
+  match goal with |- context [forallb wf_decl (map ?f specs)] => set (mk := f) end.
+  destruct (forallb wf_decl (map mk specs)) eqn:W; cbn [negb]; [|reflexivity].
+  assert (mapM (fun io => build (fst io) (snd io)) specs = Ok (map mk specs)) as ->.
+  { apply mapM_ok_map. intros io Hio. apply build_accepts_iff_wf. split; [|reflexivity].
+    rewrite forallb_forall in W. apply (W (mk io)). now apply in_map. }
+  set (ms := map mk specs). set (all := all_aspecs ms).
+  destruct (XrLabelSpec.consistent all) eqn:C.
+  - pose proof (consistent_validate_ok ms C) as V. rewrite V. cbn [sx_of_result].
+    rewrite un_ok_ok, un_axes_dict_sx, un_dims_sx.
+    apply forallb_forall. intros a Ha.
+    destruct (consistent_axes_sound ms V a Ha) as [ax [Hget [Hlen [Hown [Hfrom Hdim]]]]].
+    rewrite Hdim. cbn [opt_eqb]. rewrite Nat.eqb_refl, andb_true_r.
+    unfold axes_entry_ok. rewrite Hget, Hlen, Nat.eqb_refl. cbn [andb].
+    apply andb_true_iff. split.
+    + apply forallb2_nth; [unfold rank in Hlen; now rewrite Hlen|].
+      intros i own got Ho Hg. destruct own as [x|]; [|reflexivity].
+      rewrite (Hown i x Ho) in Hg. injection Hg as <-. cbn [opt_eqb]. apply str_eqb_refl.
+    + apply forallb_forall. intros [i g] Hin. cbn [fst snd]. destruct g as [x|]; [|reflexivity].
+      rewrite <- Hlen in Hin. apply in_combine_seq in Hin as [_ Hin]. rewrite Nat.sub_0_r in Hin.
+      destruct (Hfrom i x Hin) as [b [Hb [Nb Hbx]]].
+      apply existsb_exists. exists b. split; [exact Hb|].
+      rewrite Nb, str_eqb_refl, Hbx. cbn [andb opt_eqb]. apply str_eqb_refl.
+  - destruct (inconsistent_rejected ms C) as [e ->]. now rewrite is_err_result.
+Qed.
+
 (* ------------------------------------------------------------------ the capstone *)
 Theorem model_meets_spec : forall c, spec_ok c (run c) = true.
 Proof.
-  intros [x|i o|i o ish int|i o sh|i o ren|i o ax|c|fn].
+  intros [x|i o|i o ish int|i o sh|i o ren|i o ax|specs|c|fn].
   - apply case_parse.
   - apply case_build.
   - apply case_shape.
   - apply case_keys.
   - apply case_rename.
   - apply case_add_axes.
+  - apply case_axes.
   - apply case_idx.
   - cbn [spec_ok run]. apply sx_eqb_refl.
 Qed.
